@@ -340,6 +340,52 @@ theorem falls_back (br : BR) (wl : Option Workload) (o : StepOut) (b : BR)
     · exact absurd hp hnp
   · rfl
 
+/-- **C11.iv (plan change)** — for every release and workload: when the executor finds the plan changed
+    while `Progressing`, the status it persists acknowledges the new plan only as `Upgrading` with the
+    ready time cleared; it never keeps `Ready` across a plan edit. -/
+theorem plan_change_falls_back (br : BR) (wl : Option Workload) (o : StepOut) (b : BR)
+    (h : reconcile br wl = .val o) (hb : o.br = some b) :
+    planChangeFallsBack br b = true := by
+  unfold planChangeFallsBack
+  split
+  · rename_i hc
+    obtain ⟨hp, hh, hnf⟩ := hc
+    have hnf' : isPlanFinalizing (withFinalizer br) = false := by
+      have : isPlanFinalizing (withFinalizer br) = isPlanFinalizing br := rfl
+      rw [this]; simpa using hnf
+    have hch : isPlanChanged (withFinalizer br) = true := by simp [isPlanChanged, withFinalizer, hp, hh]
+    have hinit : initializedStatus br.status = br.status := by simp [initializedStatus, hp]
+    -- the status the sync step computes
+    have hst : (syncStatus (withFinalizer br) (initializedStatus br.status) wl).status =
+        refreshStatus (signalRecalculate (withFinalizer br) br.status)
+          (syncInfo (withFinalizer br) br.status wl).2 := by
+      unfold syncStatus; dsimp only; rw [hinit]
+      have : syncDecide (withFinalizer br) br.status (syncInfo (withFinalizer br) br.status wl).1
+          (syncInfo (withFinalizer br) br.status wl).2 = (signalRecalculate (withFinalizer br) br.status, false) := by
+        unfold syncDecide
+        have hpc : (withFinalizer br).status.phase ≠ .completed := by simp [withFinalizer, hp]
+        simp only [hpc, if_false, hnf', hch, if_true, Bool.false_eq_true]
+      rw [this]
+    have hfields : ∀ i, (refreshStatus (signalRecalculate (withFinalizer br) br.status) i).batchState = .upgrading ∧
+        (refreshStatus (signalRecalculate (withFinalizer br) br.status) i).hasReadyTime = false ∧
+        (refreshStatus (signalRecalculate (withFinalizer br) br.status) i).hash = .same := by
+      intro i; unfold refreshStatus signalRecalculate; cases i <;> simp
+    have hstop : stopped br wl = true := by
+      unfold stopped syncStatus; dsimp only
+      rw [Bool.or_eq_true]; right
+      rw [decide_eq_true_eq]
+      intro heq
+      have := congrArg Status.hash heq
+      unfold syncStatus at hst; dsimp only at hst
+      rw [hst] at this
+      rw [(hfields _).2.2] at this
+      exact hh (by simpa [withFinalizer] using this.symm)
+    obtain ⟨hs, _⟩ := stopped_status br wl o b h hb hstop
+    rw [hs, hst]
+    obtain ⟨f1, f2, f3⟩ := hfields (syncInfo (withFinalizer br) br.status wl).2
+    simp [f1, f2, f3]
+  · rfl
+
 /-! ### non-vacuity (tests on literals) -/
 def exampleBR : BR :=
   { batches := [.pct 20, .pct 50, .pct 100], partition := some 1, failureThreshold := none,
